@@ -223,7 +223,7 @@ func scenarios() []vrt.Scenario {
 			return w.verify, w.cleanup
 		}}
 	}
-	return []vrt.Scenario{
+	return append(muxScenarios(), []vrt.Scenario{
 		mk("S1-one-send-two-subs", func(w *world) {
 			a, b := w.newSub("A", 0), w.newSub("B", 1)
 			w.subscribe(a)
@@ -330,7 +330,7 @@ func scenarios() []vrt.Scenario {
 			w.s.Spawn("sender", false, func() { w.send(1); w.send(2) })
 			w.s.Spawn("churnA", false, func() { w.unsubscribe(a, a.sub) })
 		}),
-	}
+	}...)
 }
 
 // ---- driver -------------------------------------------------------------------------------------
